@@ -15,6 +15,9 @@ MUTABLE = {"Hm", "Pa", "Pb"}
 CODE.update({"Ma": 10, "Mb": 11, "TLB": 12, "Tag": 13, "KVStore": 14, "KeyDumper": 15})
 # names whose byte-wise order differs from the order of their lower-cased forms ("name order" = order of the identifiers)
 CASED = ["TLB", "Tag", "KVStore", "KeyDumper"]
+# traits with #[cglue_forward]: usable through Fwd<&mut T>, for the 4-argument cglue_impl_group! form
+FWD = ["Fm", "Fa", "Fb"]
+CODE.update({"Fm": 16, "Fa": 17, "Fb": 18})
 
 
 def subsets(xs):
@@ -35,6 +38,8 @@ def trait_defs():
         out.append("#[cglue_trait]\npub trait %s {\n    fn %s(&self) -> u64;\n    fn %s_mut(&mut self, add: u64) -> u64;\n}" % (t, meth(t), meth(t)))
     for t in ["Ma", "Mb"] + CASED:
         out.append("#[cglue_trait]\npub trait %s {\n    fn %s(&self) -> u64;\n}" % (t, meth(t)))
+    for t in FWD:
+        out.append("#[cglue_trait]\n#[cglue_forward]\npub trait %s {\n    fn %s(&self) -> u64;\n}" % (t, meth(t)))
     out.append("#[cglue_trait]\npub trait Tt<T> {\n    fn tt(&self, v: T) -> u64;\n}")
     return "\n".join(out)
 
@@ -49,7 +54,7 @@ def imp_type(name):
     for t in ["Hm"] + MOPT:
         out.append("impl %s for %s { fn %s(&self) -> u64 { self.id * 1000 + %d + self.acc } fn %s_mut(&mut self, add: u64) -> u64 { self.acc += add * %d; self.id * 1000 + %d + self.acc } }" % (
             t, name, meth(t), CODE[t], meth(t), CODE[t], CODE[t]))
-    for t in ["Ma", "Mb"] + CASED:
+    for t in ["Ma", "Mb"] + CASED + FWD:
         out.append("impl %s for %s { fn %s(&self) -> u64 { self.id * 1000 + %d + self.acc } }" % (t, name, meth(t), CODE[t]))
     out.append("impl Tt<usize> for %s { fn tt(&self, v: usize) -> u64 { self.id * 1000 + 6 + v as u64 } }" % name)
     out.append("impl Tt<u64> for %s { fn tt(&self, v: u64) -> u64 { self.id * 1000 + 7 + v } }" % name)
@@ -76,7 +81,7 @@ def calls_on(var, traits, mutable, mand, kind):
     return "\n                ".join(st)
 
 
-def emit_family(gname, mandatory, optional, cells, aliases=None, containers=("Box", "Mut", "Ref"), mand_call=None):
+def emit_family(gname, mandatory, optional, cells, aliases=None, containers=("Box", "Mut", "Ref"), mand_call=None, fwd_of=None):
     """group definition + one implementing type per enabled subset + one checker fn per cell"""
     aliases = aliases or {}
     out = []
@@ -92,19 +97,25 @@ def emit_family(gname, mandatory, optional, cells, aliases=None, containers=("Bo
     for en in subsets(optional):
         ty = "%sImp%s" % (gname, "".join(en) or "None")
         w(imp_type(ty))
-        w("cglue_impl_group!(%s, %s, { %s });" % (ty, gname, ", ".join(decl(t) for t in en)))
-    for en in subsets(optional):
-        ty = "%sImp%s" % (gname, "".join(en) or "None")
+        if fwd_of is None:
+            w("cglue_impl_group!(%s, %s, { %s });" % (ty, gname, ", ".join(decl(t) for t in en)))
+        else:
+            # 4-argument form: the third list is what the type itself enables (Box, &mut and & containers),
+            # the fourth what its Fwd<&mut T> wrapper enables
+            w("cglue_impl_group!(%s, %s, { %s }, { %s });" % (ty, gname, ", ".join(decl(t) for t in en), ", ".join(decl(t) for t in fwd_of(en))))
+    for en_decl in subsets(optional):
+        ty = "%sImp%s" % (gname, "".join(en_decl) or "None")
         for req in subsets(optional):
             if not req:
                 continue
-            expect = all(r in en for r in req)
             impl_list = " + ".join(req)
-            for cont in containers:
+            for cont in containers + (("Fwd",) if fwd_of is not None else ()):
+                en = fwd_of(en_decl) if cont == "Fwd" else en_decl
+                expect = all(r in en for r in req)
                 for op in ("check", "as_ref", "as_mut", "cast", "into"):
                     if cont == "Ref" and op == "as_mut":
                         continue
-                    fname = "cell_%s_%s_%s_%s_%s" % (gname.lower(), "".join(en).lower() or "none", "".join(req).lower(), cont.lower(), op)
+                    fname = "cell_%s_%s_%s_%s_%s" % (gname.lower(), "".join(en_decl).lower() or "none", "".join(req).lower(), cont.lower(), op)
                     cells.append((fname, gname, en, req, cont, op, expect))
                     w("pub fn %s() -> Result<u64, (String, String)> {" % fname)
                     w("    let what = \"group %s built from a type enabling {%s}, %s!(.. impl %s) on a %s container\";" % (gname, ",".join(en), op, impl_list, cont))
@@ -117,6 +128,8 @@ def emit_family(gname, mandatory, optional, cells, aliases=None, containers=("Bo
                         w("        #[allow(unused_mut)] let mut g = group_obj!(imp as %s);" % gname)
                     elif cont == "Mut":
                         w("        #[allow(unused_mut)] let mut g = group_obj!(&mut imp as %s);" % gname)
+                    elif cont == "Fwd":
+                        w("        #[allow(unused_mut)] let mut g: %sBaseBox<'_, cglue::forward::Fwd<&mut %s>> = From::from(cglue::forward::Fwd(&mut imp));" % (gname, ty))
                     else:
                         w("        #[allow(unused_mut)] let mut g = group_obj!(&imp as %s);" % gname)
                     mutable_cont = cont != "Ref"
@@ -281,14 +294,14 @@ def write_if_changed(path, text):
             f.write(text)
 
 
-def family_crate(out_dir, crate, gname, mandatory_list, optional, aliases=None, containers=("Box", "Mut", "Ref")):
+def family_crate(out_dir, crate, gname, mandatory_list, optional, aliases=None, containers=("Box", "Mut", "Ref"), fwd_of=None):
     cells, layouts = [], []
     mand = mandatory_list[0] if len(mandatory_list) == 1 else None
     parts = ["// @generated by gen/groups_gen.py — do not edit",
              "#![allow(unused_variables, unused_mut, unused_assignments, dead_code, clippy::all)]",
              "use h_objbase::support::*;", "use cglue::*;", "use cglue_macro::check;", CELL_STRUCT, trait_defs()]
     if len(mandatory_list) <= 1:
-        parts.append(emit_family(gname, mand, optional, cells, aliases=aliases, containers=containers))
+        parts.append(emit_family(gname, mand, optional, cells, aliases=aliases, containers=containers, fwd_of=fwd_of))
     else:
         # several mandatory traits, declared out of name order (layout only; the cast cells use the first)
         parts.append(emit_family(gname, "{ %s }" % ", ".join(mandatory_list), optional, cells, aliases=aliases, containers=containers, mand_call=mandatory_list[0]))
@@ -326,6 +339,8 @@ def main():
     add(family_crate(out_dir, "hg_gord", "Gord", ["Mb", "Ma"], ["Ob", "Oa"]))
     # trait names whose case-sensitive order differs from the case-folded one
     add(family_crate(out_dir, "hg_gcase", "Gcase", ["Gm"], ["Tag", "TLB", "KeyDumper", "KVStore"][:3]))
+    # 4-argument cglue_impl_group!: the Fwd<&mut T> wrapper enables a strict subset (all but the last) of what the type enables
+    add(family_crate(out_dir, "hg_gfwd", "Gfwd", ["Fm"], ["Fa", "Fb"], fwd_of=lambda en: en[:-1]))
     print("generated %d cast cells, %d layout cells" % tuple(tot))
 
 
